@@ -55,6 +55,11 @@ def make_droplet(d, salt):
     amps = [AMPL[(k + 5 * a) % len(AMPL)] for a in range(modes)]
     if d["cls"] == "PerturbedDroplet3DAxisSym":
         pos = [0.0, -0.0 if k % 2 else 0.0, pos[2]]
+        obj = cls(np.array(pos), radius, width, np.array(amps))
+        if k % 3 == 0:
+            # numerical noise in the lateral position (written after construction, as a solver would): stored as it is
+            obj.data["position"][:2] = [3e-13, -7e-12]
+        return obj
     return cls(np.array(pos), radius, width, np.array(amps))
 
 
